@@ -14,7 +14,7 @@ git -C /repo worktree remove --force "$D/repo" >/dev/null 2>&1
 OURS=$(cd /verif && tools/mutant_run.sh "$SRC/patch.diff" $IDS 2>&1 | grep -E "^(VIOLATION|OK|  broken|  failure)" | cut -c1-300)
 mkdir -p /verif/benign/$NAME
 cp "$SRC/patch.diff" /verif/benign/$NAME/
-[ -f "$SRC/meta.json" ] && cp "$SRC/meta.json" /verif/benign/$NAME/
+[ -f /verif/benign/$NAME/meta.json ] || { [ -f "$SRC/meta.json" ] && cp "$SRC/meta.json" /verif/benign/$NAME/; }
 python3 - "$NAME" "$SUITE" "$OURS" <<'PY'
 import json, sys, os
 name, suite, ours = sys.argv[1:4]
